@@ -260,6 +260,20 @@ def r5_label_and_value(rep, ctx, RID="C03.R5"):
                   "`%s` does not convert %s from the entry's unit to the reference unit in the arm of its own map (value %s, from %s, to %s, arm %s)" % (norm(ast.unparse(st)), side, val_ok, from_ok, to_ok, side_ok), node=st, fn=fn)
     rep.floor(RID, "value conversions in unit matching", len(conv_assigns), 1)
     # the reference unit is the first unit seen of the quantity type
-    firsts = [st for st in own_statements(fn.node) if isinstance(st, ast.Assign) and isinstance(st.targets[0], ast.Subscript) and "quantity_types_found_to_used_unit" in ast.unparse(st.targets[0])]
-    ok = len(firsts) == 1 and ast.unparse(firsts[0].value) == "unit" and ast.unparse(firsts[0].targets[0].slice) == "quantity_type"
+    # (on terms: a store `REF[<quantity type of the entry's category>] = <the entry's unit>` into the local map that the
+    # conversions read their target unit from, reached only where no reference unit was found for that quantity type)
+    from ..accum import entry_path
+    firsts = []
+    for st in own_statements(fn.node):
+        if isinstance(st, ast.Assign) and len(st.targets) == 1 and isinstance(st.targets[0], ast.Subscript) and isinstance(st.targets[0].value, ast.Name):
+            kt, vt = res.term(st.targets[0].slice), res.term(st.value)
+            key_ok = kt[0] == "call" and kt[1][0] in ("field", "attr") and (kt[1][1] if kt[1][0] == "field" else kt[1][2]) == "GetCategoryQuantityType" and kt[2] and entry_path(kt[2][0])[1] == (0,)
+            val_ok = entry_path(vt)[1] == (1, 0)
+            if key_ok:
+                firsts.append((st, val_ok))
+    ok = len(firsts) == 1 and firsts[0][1]
+    if ok:
+        # only where the lookup of a reference unit for this quantity type came back empty
+        from ..facts import none_fact
+        ok = any((nf := none_fact(f_)) is not None and nf[1] and any(x[0] == "call" and x[1][0] == "attr" and x[1][2] == "get" for x in walk(res.term(nf[0]))) for f_ in nfacts(cfg, cfg.node_of(firsts[0][0])))
     rep.check(ok, RID, "_MatchQuantities:reference-unit", "the first unit met for a quantity type becomes its reference unit", "the reference unit of a quantity type is not the first unit met for it", fn=fn)
